@@ -167,7 +167,7 @@ def export_c11(ctx, cfgnames, maxfaults, maxrec, tag):
 
 def conv_hist(cfgname, hist, n, cls):
     """labels of a c17 behaviour -> harness schedule (segments of concurrently running actor instances)"""
-    steps, seg, inflight, calls, evs = [], None, {}, {}, []
+    steps, seg, inflight, calls, evs, waiting = [], None, {}, {}, [], set()
     for lab in hist:
         if lab["n"] == "start":
             if seg is None:
@@ -179,11 +179,19 @@ def conv_hist(cfgname, hist, n, cls):
             if lab["end"] == 0:
                 inflight[lab["a"]] = inst
             evs.append(lab["e"] + "(%d)" % lab["p"] if lab["t"] == "hdl" else (lab["t"] + (str(lab["p"]) if lab["t"] == "rec" else "")))
+        elif lab["n"] == "wait":
+            inst = inflight.get(lab["a"])
+            if inst is not None and seg is not None:
+                seg["order"].append(inst)      # the lock request is granted while the mutex is taken: really blocks
+                waiting.add(lab["a"])
         elif lab["n"] in ("call", "lock"):
             inst = inflight.get(lab["a"])
             if inst is None or seg is None:
                 raise vlib.Infra("history: step of an actor that is not running: %s" % lab)
-            seg["order"].append(inst)
+            if lab["n"] == "lock" and lab["a"] in waiting:
+                waiting.discard(lab["a"])      # a waiter is woken by the release: no scheduling decision
+            else:
+                seg["order"].append(inst)
             if lab["n"] == "call":
                 calls[inst] += 1
                 if lab["res"] != "ok":
@@ -193,6 +201,7 @@ def conv_hist(cfgname, hist, n, cls):
                 del inflight[lab["a"]]
             elif lab["end"] == 2:
                 inflight.clear()
+                waiting.clear()
         elif lab["n"] == "env":
             e = {"n": "env", "e": lab["e"], "p": lab["p"], "g": lab["g"]}
             evs.append("%s(%d)" % (lab["e"], lab["p"] or lab["g"]))
@@ -309,6 +318,15 @@ def directed_c17(quick, K):
                 add(cfgname, "rs-%s-%d" % (t, i),
                     [run1(act(1, 1, "rec", 1), act(2, 3, t), order=[1] * i + [2] * 30)] + lifecycle_tail(pods),
                     "rec1|%d|%s" % (i, t))
+    # three operations on one group: X holds the group mutex, Y really blocks in it, X releases, Z arrives while Y is inside
+    for x_ev in ("PodDeleted", "PodCompleted"):
+        for (y, z) in ((2, 1), (1, 2)):
+            for a in (2, 3):
+                for c in range(0, 15, 1 if not quick else 2):
+                    order = [1] * a + [2] * 12 + [1] * 10 + [3] * c + [2] * 60 + [3] * 60
+                    add("pairx", "xyz-%s-%d%d-%d-%d" % (x_ev, y, z, a, c),
+                        [run1(act(1, 4, "hdl", 3, x_ev), act(2, y, "rec", y), act(3, z, "rec", z), order=order)] + lifecycle_tail([1, 2]),
+                        "%s(3)|%d|rec%d..blocked|rec%d|%d" % (x_ev, a, y, z, c))
     # life cycle of single pods of every kind, incl. the BindRequest being deleted
     for cfgname in ("fracn", "fracx", "multi", "multin"):
         add(cfgname, "life", lifecycle_tail([1]), "life")
@@ -348,7 +366,7 @@ def validate(ctx, trace, prefix, chunk=1200, workers=None):
     spans = vlib.scenario_index(events)
     if not spans:
         raise vlib.Infra("trace %s has no Scenario line" % trace)
-    invs = invariants(prefix)
+    invs = invariants("C11_") + invariants("C17_")   # all are evaluated; only those of `prefix` are this check's verdicts
     drift_first = None
     for c0 in range(0, len(spans), chunk):
         part = spans[c0:c0 + chunk]
@@ -377,6 +395,8 @@ def validate(ctx, trace, prefix, chunk=1200, workers=None):
         ctx.add_tlc(r)
         by_start = {s - lo + 1: (s, e) for (s, e) in part}
         reported = set()
+        violating = set()
+        drifts = []
         for m in re.finditer(r'^"(VIOL|DRIFT|XREAD) (\w+) (\d+) (\d+) (.*)"$', r.out, re.M):
             what, name, l0, l = m.group(1), m.group(2), int(m.group(3)), int(m.group(4))
             if what == "XREAD":
@@ -384,14 +404,13 @@ def validate(ctx, trace, prefix, chunk=1200, workers=None):
                 continue
             s, e = by_start[l0]
             scen = events[s - 1:e]
+            if what == "VIOL":
+                violating.add(s)
             if what == "DRIFT":
-                if drift_first is None or (s, l) < drift_first[0]:
-                    drift_first = ((s, l), "%s in scenario %s (%s) at event %d: %s\n%s" % (
-                        name, scen[0].get("id"), scen[0].get("sig"), l - l0 - 1, m.group(5),
-                        json.dumps({k: v for k, v in scen[min(l - l0 - 1, len(scen) - 1)].items() if k != "st"})))
+                drifts.append((s, l, name, m.group(5), scen))
                 continue
-            if (s, name) in reported:
-                continue
+            if not name.startswith(prefix) or (s, name) in reported:
+                continue     # a predicate of the sibling property: it only shows that the departure is judged by a property
             reported.add((s, name))
             at = l - l0 - 1
             ctx.violation("%s %s" % (name, scenario_sig(scen)),
@@ -399,11 +418,25 @@ def validate(ctx, trace, prefix, chunk=1200, workers=None):
                               name, at, scen[0].get("id"), json.dumps(scen[min(at, len(scen) - 1)])[:1500]),
                           {"module": TRACE, "invariant": name, "at_event": at, "schedule": json.loads(scen[0]["sched"]),
                            "trace": [{k: v for k, v in ev.items() if k != "sched"} for ev in scen[:at + 1]]})
+        # a departure of the real run from the model is drift only in a scenario in which no property predicate fails
+        seen = set()
+        for (s, l, name, info, scen) in sorted(drifts, key=lambda d: (d[0], d[1])):
+            if s in seen:
+                continue
+            seen.add(s)
+            if s in violating:
+                ctx.cov["departures_judged_by_properties"] = ctx.cov.get("departures_judged_by_properties", 0) + 1
+            elif drift_first is None:
+                at = l - (s - lo + 1) - 1
+                drift_first = ((s, l), "%s in scenario %s (%s) at event %d: %s\n%s" % (
+                    name, scen[0].get("id"), scen[0].get("sig"), at, info,
+                    json.dumps({k: v for k, v in scen[max(0, min(at, len(scen) - 1))].items() if k not in ("st", "sched")})))
     ctx.cov.setdefault("extra_reads", 0)
+    ctx.cov.setdefault("departures_judged_by_properties", 0)
     account_trace(ctx, spans, events)
     ctx.cov["traces_validated_against_impl"] += len(spans)
     ctx.cov["trace_events_validated"] += len(events) - len(spans)
-    ctx.stage("trace-validation", scenarios=len(spans), events=len(events) - len(spans), invariants=invs, wall=round(time.time() - t0, 1))
+    ctx.stage("trace-validation", scenarios=len(spans), events=len(events) - len(spans), invariants=[i for i in invs if i.startswith(prefix)], wall=round(time.time() - t0, 1))
     if drift_first is not None:
         raise vlib.Infra("specification drift: " + drift_first[1])
     return len(spans), len(events)
